@@ -171,6 +171,31 @@ def step (d : DS) (op implObs : String) : DS × String × List String :=
       let (d1, _) := feed d d.clk (.setNeed (kvBool toks "v"))
       let (d2, _) := feed d1 d.clk .needSignal
       fin (settle (addTag d2 "branch:need") implObs)
+    | "replythencomplete" =>
+      if !d.outstanding ∨ !d.s.completedArmed then (d, "no-call", dv) else
+      let d := { d with implReplied := true }
+      let (d0, _) := feed d d.clk (.response (ms toks "iv") (ms toks "mi"))
+      let g := match parseAnn implObs with
+        | some (_, g) => if g < 0 then 0 else g
+        | none => 0
+      let T := d0.clk + g
+      let (d1, out) := feed d0 T .completed
+      let d1 := addTag (addTag { d1 with clk := T, outstanding := true } "branch:completed-with-timer-pending") "nontrivial"
+      (match out with
+      | a :: _ => (d1, annObs a 0 (if (parseAnn implObs).isSome then s!"={g}" else "=?"), dv)
+      | [] => (d1, "model-no-completed", dv))
+    | "hold" =>
+      if d.s.status = .contacting ∧ d.outstanding then
+        -- the timer armed before the event announce comes due while that announce is outstanding: the tick
+        -- is dropped (model: `.timer` in `contacting`)
+        let T := d.clk + ms toks "ms"
+        let d1 := match d.s.timer with
+          | some dl => if dl ≤ T then (feed d dl .timer).1 else d
+          | none => d
+        let v := if (parseAnn implObs).isSome then
+            [s!"C15 regular-announce-while-event-announce-outstanding obs={implObs.replace " " "_"}"] else []
+        (addTag { d1 with clk := T } "branch:hold-while-contacting", "waiting", dv ++ v)
+      else fin (settle d implObs)
     | "complete" =>
       if !d.s.completedArmed then fin (settle d implObs) else
       let g := match parseAnn implObs with
